@@ -11,6 +11,7 @@ import (
 	"math/rand"
 	"net/netip"
 	"os"
+	"sync"
 	"time"
 
 	"github.com/tailscale/setec/acl"
@@ -64,7 +65,9 @@ type Entry struct {
 
 // Writer is an audit log writer.
 type Writer struct {
-	w   io.Writer
+	w io.Writer
+
+	mu  sync.Mutex // serializes WriteEntries: a json.Encoder is not safe for concurrent use
 	enc *json.Encoder
 }
 
@@ -118,6 +121,8 @@ type syncer interface {
 // Time fields are set prior to writing, any existing value is
 // overwritten.
 func (l *Writer) WriteEntries(entries ...*Entry) error {
+	l.mu.Lock()
+	defer l.mu.Unlock()
 	for _, e := range entries {
 		e.ID = rand.Uint64()
 		e.Time = time.Now().UTC()
